@@ -33,6 +33,8 @@ S0 == [side |-> "client", dead |-> FALSE,
        refOwed |-> 0,       \* refusals the endpoint has not yet signalled with a transaction error
        replies |-> <<>>,    \* replies owed on the control link: [did, want]
        cur |-> <<>>,        \* deliveries in progress per peer handle: [h, tx, txn (BOOLEAN)]
+       \* retirement of a delivery the resource sent: the application's send, its delivery-id, and what has become of it
+       snd |-> [call |-> -1, m |-> -1, did |-> -1, st |-> "none", tx |-> -1],   \* st: none | unsettled | retired (under tx, not yet discharged) | settled | dropped (rolled back)
        \* controller side
        xs |-> <<>>,         \* transactions of the application: [x, tx, st]
        decls |-> <<>>,      \* declares asked by the application: [call, x]
@@ -49,14 +51,29 @@ RemoveAt(q, i) == SubSeq(q, 1, i - 1) \o SubSeq(q, i + 1, Len(q))
 PostsOf(z, pred(_)) == UNION {{z.txs[k].posts[i].m : i \in DOMAIN z.txs[k].posts} : k \in {k \in DOMAIN z.txs : pred(z.txs[k])}}
 AbortAll(z, onlyGen) == [k \in DOMAIN z.txs |-> IF z.txs[k].st = "active" /\ (onlyGen < 0 \/ z.txs[k].gen = onlyGen) THEN [z.txs[k] EXCEPT !.st = "aborted"] ELSE z.txs[k]]
 
+\* the retirement follows the fate of its transaction
+RetireFate(z, k, commit) == IF z.snd.st = "retired" /\ z.snd.tx = k THEN [z.snd EXCEPT !.st = IF commit THEN "settled" ELSE "dropped"] ELSE z.snd
+RetireAbort(z, txs2) == IF z.snd.st = "retired" /\ TxOk(z, z.snd.tx) /\ txs2[z.snd.tx + 1].st = "aborted" THEN [z.snd EXCEPT !.st = "dropped"] ELSE z.snd
+
 (* ------------------------------------------------------------ listener side: peer frames *)
 L_PFrame(z, r, ln) ==
   IF ~r.written \/ z.dead THEN R(z, 0) ELSE
   IF r.perf = "attach" THEN
        IF r.f.coord THEN R([z EXCEPT !.ctlGen = @ + 1, !.ctlUp = TRUE, !.ctlH = r.f.h], 0)
        ELSE R([z EXCEPT !.names = Append(@, [h |-> r.f.h, name |-> r.f.name])], 0)
-  ELSE IF r.perf = "detach" /\ r.f.h = z.ctlH /\ z.ctlUp THEN R([z EXCEPT !.ctlUp = FALSE, !.txs = AbortAll(z, z.ctlGen)], 0)
+  ELSE IF r.perf = "detach" /\ r.f.h = z.ctlH /\ z.ctlUp THEN R([z EXCEPT !.ctlUp = FALSE, !.txs = AbortAll(z, z.ctlGen), !.snd = RetireAbort(z, AbortAll(z, z.ctlGen))], 0)
   ELSE IF r.perf \in {"end", "close"} THEN R([z EXCEPT !.txs = AbortAll(z, -1), !.dead = TRUE], 0)
+  ELSE IF r.perf = "disposition" THEN
+       \* the controller settles a delivery of the resource: plainly (effective at once) or under a transaction (effective on commit)
+       LET hi == IF r.f.last >= 0 THEN r.f.last ELSE r.f.first
+           mine == z.snd.did >= 0 /\ z.snd.did >= r.f.first /\ z.snd.did <= hi /\ z.snd.st \in {"unsettled", "retired", "dropped"}
+           k == r.f.state.tx IN
+       IF r.f.role # "r" \/ ~mine THEN R(z, 0)
+       ELSE IF r.f.state.k = "txn" THEN
+            (IF z.snd.st = "retired" THEN R(z, 0)      \* a second transactional retirement of the same delivery is not judged
+             ELSE IF Active(z, k) THEN R([z EXCEPT !.snd.st = "retired", !.snd.tx = k], 0)
+             ELSE R([z EXCEPT !.refOwed = @ + 1], 0))
+       ELSE IF r.f.settled THEN R([z EXCEPT !.snd.st = "settled"], 0) ELSE R(z, 0)
   ELSE IF r.perf # "transfer" THEN R(z, 0)
   ELSE IF "ctl" \in DOMAIN r THEN
        IF ~z.ctlUp \/ r.f.h # z.ctlH THEN R(z, 0)
@@ -65,7 +82,8 @@ L_PFrame(z, r, ln) ==
        ELSE LET k == r.ctl.tx
                 ok == Active(z, k) /\ z.txs[k + 1].gen = z.ctlGen IN
             IF ~ok THEN R([z EXCEPT !.replies = Append(@, [did |-> r.f.did, want |-> "rejected", tx |-> k])], 0)
-            ELSE R([z EXCEPT !.txs[k + 1].st = IF r.ctl.fail THEN "rolledback" ELSE "committed",
+            ELSE R([z EXCEPT !.snd = RetireFate(z, k, ~r.ctl.fail),
+                            !.txs[k + 1].st = IF r.ctl.fail THEN "rolledback" ELSE "committed",
                             !.vis = IF r.ctl.fail THEN @ ELSE @ \o z.txs[k + 1].posts,
                             !.replies = Append(@, [did |-> r.f.did, want |-> "accepted", tx |-> k])], 0)
   ELSE \* a post: the first frame says whether it is transactional and under which id; a post that has to be refused is refused
@@ -90,7 +108,9 @@ L_PFrame(z, r, ln) ==
 
 (* ------------------------------------------------------------ listener side: what the endpoint does *)
 L_EFrame(z, r, ln) ==
-  IF r.perf = "disposition" /\ r.f.role = "r" THEN
+  IF r.perf = "transfer" THEN
+       (IF z.snd.m >= 0 /\ r.pl.m = z.snd.m /\ z.snd.did < 0 THEN R([z EXCEPT !.snd.did = r.f.did, !.snd.st = "unsettled"], 0) ELSE R(z, 0))
+  ELSE IF r.perf = "disposition" /\ r.f.role = "r" THEN
        LET hi == IF r.f.last >= 0 THEN r.f.last ELSE r.f.first
            idx == {j \in DOMAIN z.replies : z.replies[j].did >= r.f.first /\ z.replies[j].did <= hi}
            k == r.f.state.k IN
@@ -178,9 +198,18 @@ Step(z, r, ln) ==
     [] r.ev = "PFrame" -> IF z.side = "listener" THEN L_PFrame(z, r, ln) ELSE C_PFrame(z, r, ln)
     [] r.ev = "EFrame" -> IF z.side = "listener" THEN L_EFrame(z, r, ln) ELSE C_EFrame(z, r, ln)
     [] r.ev \in {"PEof", "PReset", "EEof"} -> R([z EXCEPT !.dead = TRUE], 0)
-    [] r.ev = "ApiCall" -> IF z.side = "listener" THEN R(z, 0) ELSE C_ApiCall(z, r, ln)
-    [] r.ev = "ApiRet" -> IF z.side = "listener" THEN (IF r.op = "recv" THEN L_RecvRet(z, r, ln) ELSE R(z, 0)) ELSE C_ApiRet(z, r, ln)
-    [] r.ev = "End" -> R(z, (IF z.side = "listener" THEN L_Rest(z, r, ln, r.pending) + Chk("C18_RefusalSignalled", z.dead \/ z.refOwed = 0, ln, "") ELSE 0)
+    [] r.ev = "ApiCall" -> IF z.side = "listener" THEN (IF r.op = "send" THEN R([z EXCEPT !.snd.call = r.call, !.snd.m = r.args.m], 0) ELSE R(z, 0)) ELSE C_ApiCall(z, r, ln)
+    [] r.ev = "ApiRet" -> IF z.side = "listener"
+                          THEN (IF r.op = "recv" THEN L_RecvRet(z, r, ln)
+                                \* the send resolves with the controller's outcome only once the retirement has taken effect
+                                ELSE IF r.op = "send" /\ r.call = z.snd.call /\ r.res.ok THEN
+                                     R([z EXCEPT !.snd.call = -1], Chk("C18_RetireIsolated", z.snd.st = "settled", ln,
+                                                                        IF z.snd.st = "retired" THEN "before-discharge" ELSE IF z.snd.st = "dropped" THEN "after-rollback" ELSE "unsettled") + Stat("retired"))
+                                ELSE IF r.op = "send" /\ r.call = z.snd.call THEN R([z EXCEPT !.snd.call = -1], 0)
+                                ELSE R(z, 0))
+                          ELSE C_ApiRet(z, r, ln)
+    [] r.ev = "End" -> R(z, (IF z.side = "listener" THEN L_Rest(z, r, ln, r.pending) + Chk("C18_RefusalSignalled", z.dead \/ z.refOwed = 0, ln, "")
+                                                             + Chk("C18_RetireApplied", z.dead \/ ~(z.snd.st = "settled" /\ \E i \in DOMAIN r.pending : r.pending[i].call = z.snd.call), ln, "") ELSE 0)
                             + Chk("C18_NoPanic", r.panics = 0, ln, ""))
     [] r.ev = "Spin" -> R(z, Fl("C18_NoHang", ln, "spin"))
     [] OTHER -> R(z, 0)
